@@ -336,33 +336,39 @@ structure Evidence where
   time : Int
   deriving DecidableEq, Repr
 
+/-- `handleValidatorSignature`, part 1: the signing info is reset every `SignedBlocksWindow` blocks -/
+def sigWindowReset (s : State) (h : Int) (a : Addr) (si0 : SignInfo) : State × SignInfo :=
+  if h % s.params.window = 0 then (clearMissed s a, si0.reset) else (s, si0)
+
+/-- part 2: the missed-block bit array at the current index, the counter, the index -/
+def sigRecord (s : State) (a : Addr) (si : SignInfo) (signed : Bool) : State × SignInfo :=
+  let previous := missedAt s a si.index
+  if !previous && !signed then
+    (setMissed s a si.index true, { si with missed := si.missed + 1, index := si.index + 1 })
+  else if previous && signed then
+    (setMissed s a si.index false, { si with missed := si.missed - 1, index := si.index + 1 })
+  else (s, { si with index := si.index + 1 })
+
+/-- part 3: downtime confirmed — slash, reset, jail, set the jail period -/
+def sigPunish (s : State) (p : Params) (h t : Int) (vt : Vote) (si : SignInfo) : State :=
+  let s := slash s h vt.addr (h - 1 - 1) vt.power p.slashDowntime
+  let s := clearMissed s vt.addr
+  let s := jailValidator s vt.addr
+  { s with signInfo := aset s.signInfo vt.addr { si.reset with jailedUntil := t + p.downtimeJail } }
+
 /-- `handleValidatorSignature` -/
 def handleSig (s : State) (h t : Int) (vt : Vote) : State :=
-  let a := vt.addr
-  match aget s.vals a with
+  match aget s.vals vt.addr with
   | none => s
   | some _ =>
-    match aget s.signInfo a with
-    | none => if h ≥ patchHeight then resetSigningInfo s a h else s
+    match aget s.signInfo vt.addr with
+    | none => if h ≥ patchHeight then resetSigningInfo s vt.addr h else s
     | some si0 =>
       let p := s.params
-      let win := h % p.window = 0
-      let si := if win then si0.reset else si0
-      let s := if win then clearMissed s a else s
-      let previous := missedAt s a si.index
-      let bump := !previous && !vt.signed
-      let drop := previous && vt.signed
-      let s := if bump then setMissed s a si.index true else if drop then setMissed s a si.index false else s
-      let si := if bump then { si with missed := si.missed + 1 } else if drop then { si with missed := si.missed - 1 } else si
-      let si := { si with index := si.index + 1 }
-      if si.missed > p.window - p.minSigned then
-        let s := slash s h a (h - 1 - 1) vt.power p.slashDowntime
-        let si := si.reset
-        let s := clearMissed s a
-        let s := jailValidator s a
-        let si := { si with jailedUntil := t + p.downtimeJail }
-        { s with signInfo := aset s.signInfo a si }
-      else { s with signInfo := aset s.signInfo a si }
+      let r1 := sigWindowReset s h vt.addr si0
+      let r2 := sigRecord r1.1 vt.addr r1.2 vt.signed
+      if r2.2.missed > p.window - p.minSigned then sigPunish r2.1 p h t vt r2.2
+      else { r2.1 with signInfo := aset r2.1.signInfo vt.addr r2.2 }
 
 /-- `handleDoubleSign` (+ `validateDoubleSign`) — slashes, does not jail -/
 def handleDoubleSign (s : State) (h t : Int) (e : Evidence) : State :=
